@@ -59,7 +59,7 @@ def run_batch(job):
         more = []
         for k, r in enumerate(recs):
             more.append(dict(r, _k=k, _skip=0))
-            if k % 6 == 2 and not r.get("long") and r["ops"][:2] == ["=", "="] and r["pe"] - r["ps"] > 2:
+            if k % 6 == 2 and not r.get("long") and r["ops"][:2] == ["=", "="] and r["pe"] - r["ps"] > 2 and not str(bid).startswith("X"):
                 more.append(dict(r, _k=k, _skip=1, read=r["read"][1:], ops=r["ops"][1:], ps=r["ps"] + 1))
         recs = more
         with open(fa, "w") as f:
@@ -119,6 +119,8 @@ def run_batch(job):
             cases.append({"id": f"{bid}.{r['id']}" + ("+1" if r.get("_skip") else ""), "status": st, "missing": ol is None, "seq": seq, "walk": r["walk"], "ps": r["ps"], "pe": r["pe"],
                           "read": r["read"], "icg": cg_of(fi), "ocg": cg_of(fo), "icols": fi[:12], "ocols": fo[:12] if fo else [""] * 12,
                           "iopt": [t for t in fi[12:] if not t.startswith("cg:Z:")], "oopt": [t for t in fo[12:] if not t.startswith("cg:Z:")],
+                          "icgpos": ([j + 1 for j, t in enumerate(fi[12:]) if t.startswith("cg:Z:")] or [0])[0],
+                          "ocgpos": ([j + 1 for j, t in enumerate(fo[12:]) if t.startswith("cg:Z:")] or [0])[0],
                           "long": r.get("long", False)})
         return cases
     finally:
@@ -249,6 +251,11 @@ def run(ctx):
     # more records than one round of worker batches holds (1000 per core): 2,100 short reads with 1 and with 2 cores
     for cores in (1, 2):
         b = random_batch(rnd, f"M{cores}", 2100, big=False)
+        jobs.append(b + (cores,))
+    # ... and files whose record count is an EXACT multiple of the batch size but not of batch size x cores: full batches are
+    # waiting for company when the input ends
+    for tag, n, cores in (("X1", 1000, 2), ("X2", 2000, 3)):
+        b = random_batch(rnd, tag, n, big=False)
         jobs.append(b + (cores,))
     res = pool_map(run_batch, jobs, chunk=1)
     cases = [c for cs in res for c in cs]
